@@ -145,18 +145,20 @@ class ExpandedTraceback:
         mocked builtins); failing that the position of a SyntaxError found while
         compiling the code; failing that the innermost frame of the executed
         (instructor) code; and only then the innermost frame of all.
+        The file's section offset is added, so that the line is a line of the
+        whole file (as in the traceback text) rather than of the current section.
         """
         frames = traceback.extract_tb(tb)
         for frame in reversed(frames):
             if frame.filename in self.show_filenames:
-                return frame.lineno
+                return frame.lineno + self.line_offsets.get(frame.filename, 0)
         if (isinstance(self.exception, SyntaxError) and self.exception.lineno is not None and
                 (self.exception.filename in self.show_filenames or
                  self.exception.filename in self.hide_filenames)):
-            return self.exception.lineno
+            return self.exception.lineno + self.line_offsets.get(self.exception.filename, 0)
         for frame in reversed(frames):
             if frame.filename in self.hide_filenames:
-                return frame.lineno
+                return frame.lineno + self.line_offsets.get(frame.filename, 0)
         return frames[-1].lineno if frames else None
 
     def __repr__(self):
